@@ -184,6 +184,8 @@ type explainer struct {
 	cutAt int
 	// ruleIDs memoizes content-addressed rule IDs keyed by index in program.Rules.
 	ruleIDs map[int]string
+	// initialFacts indexes program.InitialFacts by hash; built on first use.
+	initialFacts map[uint64][]ast.Atom
 }
 
 func (e *explainer) explain(goal ast.Atom, depth int) []*ProofNode {
@@ -207,7 +209,7 @@ func (e *explainer) explain(goal ast.Atom, depth int) []*ProofNode {
 
 	var proofs []*ProofNode
 
-	if e.isEDB(goal.Predicate) && e.store.Contains(goal) {
+	if (e.isEDB(goal.Predicate) || e.isInitialFact(goal)) && e.store.Contains(goal) {
 		proofs = append(proofs, &ProofNode{
 			ID:   edbProofID(goal),
 			Fact: goal,
@@ -379,6 +381,27 @@ func (e *explainer) isEDB(p ast.PredicateSym) bool {
 	}
 	_, ok := e.program.EdbPredicates[p]
 	return ok
+}
+
+// isInitialFact reports whether the program text states the goal as a fact.
+// A predicate that also has rules is IDB, but such a fact needs no derivation:
+// it is a leaf like a stored fact of an EDB predicate.
+func (e *explainer) isInitialFact(goal ast.Atom) bool {
+	if e.program == nil {
+		return false
+	}
+	if e.initialFacts == nil {
+		e.initialFacts = make(map[uint64][]ast.Atom)
+		for _, f := range e.program.InitialFacts {
+			e.initialFacts[f.Hash()] = append(e.initialFacts[f.Hash()], f)
+		}
+	}
+	for _, f := range e.initialFacts[goal.Hash()] {
+		if f.Equals(goal) {
+			return true
+		}
+	}
+	return false
 }
 
 // --- helpers ---
